@@ -160,6 +160,7 @@ var noInitPkgs = map[string]bool{
 	"os/signal": true, "testing": true,
 	"encoding/json": true, "encoding/binary": true, "golang.org/x/sys/unix": true,
 	"github.com/spf13/viper": true, "google.golang.org/protobuf/proto": true,
+	"github.com/json-iterator/go": true, "github.com/modern-go/reflect2": true,
 }
 
 func (i *interpreter) ensureInit(fr *frame, pkg *ssa.Package) {
